@@ -180,3 +180,30 @@ def safe_name(s):
     if len(s) > 120:
         s = s[:100] + "_" + hashlib.sha1(s.encode()).hexdigest()[:10]
     return s
+
+
+def run_witnesses():
+    """E3: build the witness crate's doctests against /repo with the nightly toolchain (error codes
+    are checked only there). -> (ok, n_passed, n_failed, log tail)"""
+    src = os.path.join(VERIF, "witness")
+    tmp = tempfile.mkdtemp(prefix="lsa-witness.")
+    try:
+        w = os.path.join(tmp, "w")
+        shutil.copytree(src, w, ignore=shutil.ignore_patterns("target"))
+        # path-depending on /repo: reuse its lockfile so nothing needs resolving online
+        cargo_toml = open(os.path.join(w, "Cargo.toml")).read().replace('path = "/repo"', 'path = "%s"' % REPO)
+        open(os.path.join(w, "Cargo.toml"), "w").write(cargo_toml)
+        if os.path.exists(os.path.join(REPO, "Cargo.lock")):
+            shutil.copy(os.path.join(REPO, "Cargo.lock"), os.path.join(w, "Cargo.lock"))
+        env = dict(os.environ)
+        env["CARGO_NET_OFFLINE"] = "true"
+        env["CARGO_TARGET_DIR"] = os.path.join(tmp, "target")
+        r = subprocess.run(["cargo", "+nightly", "test", "--doc", "--offline"], cwd=w, env=env, stdout=subprocess.PIPE, stderr=subprocess.STDOUT, text=True)
+        out = r.stdout
+        m = re.search(r"test result: (\w+)\. (\d+) passed; (\d+) failed", out)
+        if not m:
+            return False, 0, 0, out[-1500:]
+        failed = [l for l in out.splitlines() if l.startswith("test ") and l.rstrip().endswith("FAILED")]
+        return (r.returncode == 0 and m.group(1) == "ok"), int(m.group(2)), int(m.group(3)), "\n".join(failed) or out[-600:]
+    finally:
+        shutil.rmtree(tmp, ignore_errors=True)
